@@ -22,7 +22,7 @@ class C03(flow.Spec):
 
     def gen_cases(self, rng, tier):
         n = {'quick': 700, 'thorough': 20000, 'search': 2500}[tier]
-        return [pc.gen_pmm_case(rng, 3) for _ in range(n)]
+        return [pc.gen_pmm_case(rng, 3, big_drain=(0.02 if tier == 'thorough' else 0.0)) for _ in range(n)]
 
     def classify(self, nums, note):
         return note
